@@ -62,7 +62,7 @@ func init() {
 	reg(&Prop{ID: "C07", Level: "exploration",
 		Quick:    Tier{Cases: 3200, PerJob: 200, Seconds: 60},
 		Thorough: Tier{Cases: 160000, PerJob: 2500, Seconds: 1500},
-		Rule:     "one case = one entry point (AssembleFile incl. seed validation, VerifyIndex on a file with one damaged byte, ChopFile, Copy, ChunkStream, IndexFromFile, Tar, UnTar, UnTarIndex) with a tape-built workload and worker count; run A records a seeded schedule of S steps without cancellation, then the same schedule is re-run with the context cancelled before scheduling decision k for every k in 0..S+1 (S <= 150) or 60 tape-chosen k (sub_evaluations counts these runs); oracle: nil result => work complete (target == blob / every chunk stored / index covers the input / tree complete), the call returns, no panic; distinct = distinct (entry point, schedule hashes); non-trivial = at least one cancellation fired; 1/10 of the cases run the real `desync` binary (extract with/without --in-place, --print-stats, -c cache; chop; cache; make with/without --print-stats; untar -i with/without cache; -n 1 or 3) against a gated loopback chunk server that holds request k while SIGINT or SIGTERM is delivered, for k = 1, last and 6 tape-chosen k: exit status 0 => work complete, a failed extract leaves the destination as it was",
+		Rule:     "one case = one entry point (AssembleFile incl. seed validation, VerifyIndex on a file with one damaged byte, ChopFile, Copy, ChunkStream, IndexFromFile, Tar, UnTar, UnTarIndex) with a tape-built workload and worker count; run A records a seeded schedule of S steps without cancellation, then the same schedule is re-run with the context cancelled before scheduling decision k for every k in 0..S+1 (S <= 150) or 60 tape-chosen k (sub_evaluations counts these runs); oracle: nil result => work complete (target == blob / every chunk stored / index covers the input / tree complete), the call returns, no panic; distinct = distinct (entry point, schedule hashes); non-trivial = at least one cancellation fired; 1/10 of the cases run the real `desync` binary (extract with/without --in-place, --print-stats, -c cache; chop; cache; make with/without --print-stats; untar -i with/without cache; -n 1 or 3) against a gated loopback chunk server that holds request k while SIGINT or SIGTERM is delivered, for k = 1, last and 6 tape-chosen k: exit status 0 => work complete, a failed extract leaves the destination as it was; the process-level share also covers tar -i (PUT held) and untar --output-format gnu-tar (complete = a well-formed archive listing every entry with its content)",
 		Assumptions: []string{
 			"cancellation is delivered between two scheduling decisions (channel/lock/store operation granularity)",
 			"a cancelled call that did finish its work may return nil or an error; only nil with incomplete work is a violation",
@@ -74,7 +74,7 @@ func init() {
 	reg(&Prop{ID: "C06", Level: "exploration",
 		Quick:    Tier{Cases: 80000, PerJob: 5000, Seconds: 60},
 		Thorough: Tier{Cases: 3000000, PerJob: 50000, Seconds: 1500},
-		Rule:     "one case = blob (2/3 built from few distinct chunks repeated so that workers race on one ID, 1/3 generic) x one of {ChopFile, Copy (with and without duplicate ids), ChunkStream, make = IndexFromFile + ChopFile} x n in 1..8 x optional pre-filled target x fault budget 0..3 (the k-th HasChunk / StoreChunk of the target or GetChunk of the source fails or is slow; 1/3 of the cases are fault-free); oracle: nil => no injected failure was returned to desync, every index chunk is in the target store with correct bytes, a produced index equals the reference table; error => some failure was injected; 1/100 of the cases run the real `desync chop | cache | make | tar -i` binary (-e 0) against a loopback chunk server that answers the k-th HEAD/PUT/GET with 500: exit status must be non-zero then, and the store (and index) complete on exit 0; distinct = distinct (class, scheduler trace hash); non-trivial = preemption or fault fired; a fifth of the process-level cases run the command as a ptrace tracee and make one drawn file-system system call fail (ENOSPC / EIO / EDQUOT for calls that need space - once, or from then on as on a disk that stays full; EIO / EACCES / EPERM / EROFS for rename, unlink, chmod, chown, utimensat ...): the command may fail, but exit status 0 with a result the oracle rejects is a violation",
+		Rule:     "one case = blob (2/3 built from few distinct chunks repeated so that workers race on one ID, 1/3 generic) x one of {ChopFile, Copy (with and without duplicate ids), ChunkStream, make = IndexFromFile + ChopFile} x n in 1..8 x optional pre-filled target x fault budget 0..3 (the k-th HasChunk / StoreChunk of the target or GetChunk of the source fails or is slow; 1/3 of the cases are fault-free); oracle: nil => no injected failure was returned to desync, every index chunk is in the target store with correct bytes, a produced index equals the reference table; error => some failure was injected; 1/100 of the cases run the real `desync chop | cache | make | tar -i` binary (-e 0) against a loopback chunk server that answers the k-th HEAD/PUT/GET with 500: exit status must be non-zero then, and the store (and index) complete on exit 0; distinct = distinct (class, scheduler trace hash); non-trivial = preemption or fault fired; a fifth of the process-level cases run the command as a ptrace tracee and make one drawn file-system system call fail (ENOSPC / EIO / EDQUOT for calls that need space - once, or from then on as on a disk that stays full; EIO / EACCES / EPERM / EROFS for rename, unlink, chmod, chown, utimensat ...): the command may fail, but exit status 0 with a result the oracle rejects is a violation; the process-level chop/cache cases may pass --ignore with an index naming a third of the chunks (the others must still arrive)",
 		Assumptions: []string{
 			"store failures are injected at call granularity (the call returns an error without side effect)",
 			"in-bubble, tar -i is covered through ChunkStream (the same function the command uses) with a byte reader instead of the tar pipe; the command itself runs at process level",
@@ -129,7 +129,7 @@ func init() {
 	reg(&Prop{ID: "C03", Level: "fault_enumeration",
 		Quick:    Tier{Cases: 8000, PerJob: 500, Seconds: 70},
 		Thorough: Tier{Cases: 160000, PerJob: 2000, Seconds: 1500},
-		Rule:     "one case = backend {LocalStore, RemoteHTTP client -> in-process transport -> HTTPHandler -> LocalStore, casync protocol client <-> ProtocolServer over a pipe (server store configured as `desync pull` does), S3Store against an in-harness S3 endpoint on loopback, SFTPStore against an sftp server (pkg/sftp) spoken over stdio by a CASYNC_SSH_PATH shim} x upstream format {compressed, uncompressed} x server compression/verification settings x wrapper stack {none, cache, cache+repair, router, failover group, dedup queue, swap(dedup(cache(router(failover))))} x chunk (1..300 bytes, 1/4 up to 4 KiB); the stored object is then corrupted in every way of the enumeration and fetched through a fresh stack each time: a bit flip in EVERY byte and truncation to EVERY length when the stored object is <= 512 bytes (64 sampled each otherwise), replaced by another valid object / a valid zstd frame of other data / raw bytes / the other format, garbage, junk before or after; plus a corrupted cache entry and one extract or cat pipeline over a poisoned store; oracle: error, or data hashing to the requested ID (pipelines: error or exactly the blob); sub_evaluations = faulted fetches; distinct = distinct (backend, formats, stack, tape); non-trivial = a fault was applied",
+		Rule:     "one case = backend {LocalStore, RemoteHTTP client -> in-process transport -> HTTPHandler -> LocalStore, casync protocol client <-> ProtocolServer over a pipe (server store configured as `desync pull` does), S3Store against an in-harness S3 endpoint on loopback, SFTPStore against an sftp server (pkg/sftp) spoken over stdio by a CASYNC_SSH_PATH shim} x upstream format {compressed, uncompressed} x server compression/verification settings x wrapper stack {none, cache, cache+repair, router, failover group, dedup queue, swap(dedup(cache(router(failover))))} x chunk (1..300 bytes, 1/4 up to 4 KiB); the stored object is then corrupted in every way of the enumeration and fetched through a fresh stack each time: a bit flip in EVERY byte and truncation to EVERY length when the stored object is <= 512 bytes (64 sampled each otherwise), replaced by another valid object / a valid zstd frame of other data / raw bytes / the other format, garbage, junk before or after; plus a corrupted cache entry and one extract or cat pipeline over a poisoned store; oracle: error, or data hashing to the requested ID (pipelines: error or exactly the blob); sub_evaluations = faulted fetches; distinct = distinct (backend, formats, stack, tape); non-trivial = a fault was applied; every probe also fetches a second chunk through the same stack before the first one's data is examined (a held chunk must survive the next fetch); behind the protocol server the store may label what it returns by content; 1/50 of the cases plant one damaged object (bit flip, truncation, emptied, other chunk, other data, wrong format, appended byte) in a directory, a loopback HTTP server or behind the real `desync chunk-server` and run the real extract / cat / cache on it with a config file that names the store's format plus decoy and near-miss entries switching verification off for other locations (a prefix, a sibling, the parent, a sub-path, another port, non-matching globs - chosen with the documented matching rule as reference) and -t / -c flags: exit status 0 requires the output (and whatever entered the cache) to be the blob",
 		Assumptions: []string{
 			"the S3 endpoint is a minimal path-style server written for the harness, signatures are not checked",
 			"no hop facing the caller has SkipVerify set; server-side stores may (the client hop verifies)",
@@ -175,7 +175,7 @@ func init() {
 	reg(&Prop{ID: "C05", Level: "exploration",
 		Quick:    Tier{Cases: 9600, PerJob: 600, Seconds: 70},
 		Thorough: Tier{Cases: 640000, PerJob: 8000, Seconds: 1500},
-		Rule:     "one case = random tree created as root on tmpfs (<= 40 entries, depth <= 5: nested and empty directories, files of 0..16 KiB, symlinks to anything, char/block devices, user xattrs, arbitrary uid/gid, permission + set-id/sticky bits, arbitrary ns mtimes, names with any bytes except '/' and NUL) x digest {SHA512/256, SHA256} x one of {catar: Tar -> UnTar; caidx+store: Tar -> pipe -> ChunkStream(n) -> index written and re-read -> UnTarIndex(n) with a slow, reordering store, all under the seeded scheduler; GNU-tar output parsed with archive/tar; mtree output read back by an mtree(5) parser; tar-stream input built with archive/tar, optionally cut inside a member}; oracle: lstat/readlink/xattr/content/mtime snapshot of source and result equal (ranked categories), two packings byte-identical, chunked archive bytes == direct archive bytes; distinct = distinct (path, digest, size bucket, trace hash / tape); every case is non-trivial (a generated tree); 1/60 of the cases run the real `desync tar`, `desync untar` and `desync mtree` binaries (catar file or -i with a local store, default or --digest sha256, disk or --input-format tar input incl. a truncated tar file) on a generated tree with the same snapshot oracle; a fifth of the process-level cases run the command as a ptrace tracee and make one drawn file-system system call fail (ENOSPC / EIO / EDQUOT for calls that need space - once, or from then on as on a disk that stays full; EIO / EACCES / EPERM / EROFS for rename, unlink, chmod, chown, utimensat ...): the command may fail, but exit status 0 with a result the oracle rejects is a violation; the process-level cases also draw --no-same-owner, --no-same-permissions, --no-time and -x (each waives one attribute, the rest is compared, and with --no-same-owner everything must belong to the invoking user) and unpack the same archive with --output-format gnu-tar into a file that must be a whole number of 512-byte blocks, end in two zero blocks and list the tree",
+		Rule:     "one case = random tree created as root on tmpfs (<= 40 entries, depth <= 5: nested and empty directories, files of 0..16 KiB, symlinks to anything, char/block devices, user xattrs, arbitrary uid/gid, permission + set-id/sticky bits, arbitrary ns mtimes, names with any bytes except '/' and NUL) x digest {SHA512/256, SHA256} x one of {catar: Tar -> UnTar; caidx+store: Tar -> pipe -> ChunkStream(n) -> index written and re-read -> UnTarIndex(n) with a slow, reordering store, all under the seeded scheduler; GNU-tar output parsed with archive/tar; mtree output read back by an mtree(5) parser; tar-stream input built with archive/tar, optionally cut inside a member}; oracle: lstat/readlink/xattr/content/mtime snapshot of source and result equal (ranked categories), two packings byte-identical, chunked archive bytes == direct archive bytes; distinct = distinct (path, digest, size bucket, trace hash / tape); every case is non-trivial (a generated tree); 1/60 of the cases run the real `desync tar`, `desync untar` and `desync mtree` binaries (catar file or -i with a local store, default or --digest sha256, disk or --input-format tar input incl. a truncated tar file) on a generated tree with the same snapshot oracle; a fifth of the process-level cases run the command as a ptrace tracee and make one drawn file-system system call fail (ENOSPC / EIO / EDQUOT for calls that need space - once, or from then on as on a disk that stays full; EIO / EACCES / EPERM / EROFS for rename, unlink, chmod, chown, utimensat ...): the command may fail, but exit status 0 with a result the oracle rejects is a violation; the process-level cases also draw --no-same-owner, --no-same-permissions, --no-time and -x (each waives one attribute, the rest is compared, and with --no-same-owner everything must belong to the invoking user) and unpack the same archive with --output-format gnu-tar into a file that must be a whole number of 512-byte blocks, end in two zero blocks and list the tree; a third of the disk unpacks (both levels) go into a destination that already holds older entries at some of the archive's paths: files with other content and a stale xattr, two paths sharing one inode, a symlink where a file will be, a file where a symlink or device will be, directories with other permissions",
 		Assumptions: []string{
 			"metadata fidelity is input coverage rather than simulation (DESIGN.md C05 honest limit); the simulated part is the five-stage chunked pipeline",
 			"GNU tar output: xattrs and sub-second mtimes are not compared (the format cannot carry them); a refusal by archive/tar is not a wrong result",
@@ -198,7 +198,7 @@ func init() {
 	reg(&Prop{ID: "C16", Level: "exploration",
 		Quick:    Tier{Cases: 32000, PerJob: 2000, Seconds: 70},
 		Thorough: Tier{Cases: 1600000, PerJob: 20000, Seconds: 1500},
-		Rule:     "one case = local store directory of 0..40 objects produced by a simulated history: valid chunks in the store's own format, the same chunk in both formats, chunks of the other format only, invalid chunks (bit flip, truncation, other data, emptied), abandoned .tmp-cacnk* files of killed writers, junk files incl. chunk-like names x store mode {compressed, uncompressed} x one of {Prune with reference set none / all / random subset / subset plus absent ids; Verify; Verify with repair, both with n in 1..6 workers sharing one writer under the seeded scheduler}; oracle: expected file set and expected set of reported ids, classified by an independent zstd+SHA validator; distinct = distinct (op, mode, object bucket, tape, trace hash); every case is non-trivial (a populated store); 1/120 of the cases run the real `desync prune -y` / `desync verify [-r]` binary on a compressed local store with unreferenced chunks, a corrupted chunk, a temporary file and junk; S3 keys with a chunk-like name in a directory that is only a prefix of the id, the whole id, empty, or upper case are among the objects that must survive; the process-level prune/verify cases run on compressed stores and on uncompressed ones named in a config file",
+		Rule:     "one case = local store directory of 0..40 objects produced by a simulated history: valid chunks in the store's own format, the same chunk in both formats, chunks of the other format only, invalid chunks (bit flip, truncation, other data, emptied), abandoned .tmp-cacnk* files of killed writers, junk files incl. chunk-like names x store mode {compressed, uncompressed} x one of {Prune with reference set none / all / random subset / subset plus absent ids; Verify; Verify with repair, both with n in 1..6 workers sharing one writer under the seeded scheduler}; oracle: expected file set and expected set of reported ids, classified by an independent zstd+SHA validator; distinct = distinct (op, mode, object bucket, tape, trace hash); every case is non-trivial (a populated store); 1/120 of the cases run the real `desync prune -y` / `desync verify [-r]` binary on a compressed local store with unreferenced chunks, a corrupted chunk, a temporary file and junk; S3 keys with a chunk-like name in a directory that is only a prefix of the id, the whole id, empty, or upper case are among the objects that must survive; the process-level prune/verify cases run on compressed stores and on uncompressed ones named in a config file; the store directory itself may be hidden, contain blanks or end in the chunk extension, and abandoned temporary files may lie below a hidden sub-directory",
 		Assumptions: []string{
 			"the name-filter logic is a pure function of the directory listing (DESIGN.md C16 honest limit); the simulated parts are the store history (killed writers, corruption) and the concurrent Verify workers",
 			"SFTP prune is not exercised; S3 prune (1/12 of the cases) runs against a minimal in-harness S3 endpoint",
